@@ -69,6 +69,18 @@ ReadsJudge(post, reads) ==
       [] OTHER -> {}
     : i \in DOMAIN reads }
 
+\* a command whose commit was made to fail (fault point CommitFails): it must leave nothing behind and say so; a command
+\* that would have changed nothing may also never reach the commit and answer as usual
+Untouched(pre, post, facts) ==
+  /\ KVView(pre, post) /\ SessView(pre, post) /\ CatView(pre, post) /\ TixView(pre, post)
+  /\ ~facts.dump_changed /\ ~facts.watch_fired /\ facts.events = 0
+FaultJudge(pre, post, r, got, facts, istxn) ==
+  LET f == CommitFails(pre)
+      noop == KVView(r.st, pre) /\ SessView(r.st, pre) /\ CatView(r.st, pre) /\ TixView(r.st, pre) IN
+     F(IF istxn THEN "txn-fault-atomic" ELSE "fault-atomic", Untouched(pre, post, facts))
+  \cup F(IF istxn THEN "txn-fault-reported" ELSE "fault-reported", IF istxn THEN ~got.ok \/ (noop /\ r.res.ok # "no")
+                           ELSE ResOK(f.res, got) \/ (noop /\ ResOK(r.res, got)))
+
 Verdict(i) ==
   LET e    == Trace[i]
       pre  == Pre(i)
@@ -77,8 +89,10 @@ Verdict(i) ==
       r    == ApplyAt(pre, c.idx, c)
       istxn == c.t = "txn"
       first == "pre" \in DOMAIN e
+      faulted == "fault" \in DOMAIN e.cmd /\ e.cmd.fault = "yes"
   IN
-     (IF istxn THEN TxnJudge(pre, post, r, e.res, e.facts)
+     (IF faulted THEN FaultJudge(pre, post, r, e.res, e.facts, istxn)
+      ELSE IF istxn THEN TxnJudge(pre, post, r, e.res, e.facts)
       ELSE   F("res", ResOK(r.res, e.res))
         \cup F("kv-state", KVView(r.st, post))
         \cup F("sess-state", SessView(r.st, post))
